@@ -59,7 +59,7 @@ def _show(v, n=300):
     return s if len(s) <= n else s[:n] + "..."
 
 
-_UNDERSTOOD = {"atan2", "abs"}
+_UNDERSTOOD = {"atan2", "abs", "sin", "cos", "sqrt", "exp"}       # the last four: the function of an argument outside the normal form (a quotient)
 
 
 def _opaque_in(v):
@@ -108,6 +108,20 @@ def _returns(ctx, runs, what, where):
         else:
             ctx.error(f"{what}: no regime returns", where)
     return out
+
+
+def _decide(ctx, pairs, pred, msg, where, detail, sink=None, nontrivial=True):
+    """one obligation over the regimes `pairs` = [(value, Run)]: it holds when `pred(value)` holds in every regime.  A regime in which it does
+    not hold must be shown to be reachable (Run.sure: a point of the parameter space with the assumed outcomes of all undecided tests) before a
+    violation is reported; otherwise the obligation is an ANALYSIS-ERROR"""
+    bad = [(v, r) for v, r in pairs if not pred(v)]
+    if bad and not any(r.sure for _, r in bad):
+        ctx.error(msg, where, {"holds in": f"{len(pairs) - len(bad)} of {len(pairs)} regimes", "the other regimes were not shown to be reachable": detail(bad[0][0])})
+        return None
+    d = None if not bad else detail(next(v for v, r in bad if r.sure))
+    if sink is not None:
+        return sink.check(not bad, msg, where, d, nontrivial=nontrivial)
+    return ctx.check(not bad, msg, where, d, nontrivial=nontrivial)
 
 
 class _Crash(Exception):
@@ -215,16 +229,14 @@ def r1_inverse_pair(ctx):
                 ctx.fail(f"{tag}: one location asked for gives one [c1, c2, c3] triple", inv, _show(res))
                 continue
             if ctype == 1:
-                ok = G.same(res, a)
-                acc.check(ok, f"{tag}: identity - the origin is subtracted before the transposed transform is applied (inverse of `origin + T @ v` "
-                              "for an orthonormal T)", inv, None if ok else _show(res))
+                _decide(ctx, [(res, r)], lambda v: G.same(v, a), f"{tag}: identity - the origin is subtracted before the transposed transform is applied "
+                        "(inverse of `origin + T @ v` for an orthonormal T)", inv, _show, sink=acc)
                 continue
             names = ("R", "theta", "z") if ctype == 2 else ("R", "theta (polar angle, entered second)", "phi (azimuth, entered third)")
             how = ("hypot / norm of the local vector", "atan2(y, x) * 180/pi undoes the pi/180 conversion (argument order, reciprocal factors)",
                    "passed through" if ctype == 2 else "atan2(y, x) * 180/pi of the in-plane components")
             for k in range(3):
-                ok = G.same(res[k], a[k])
-                acc.check(ok, f"{tag}: {names[k]} is recovered ({how[k]})", inv, None if ok else _show(res[k]))
+                _decide(ctx, [(res[k], r)], lambda v, k=k: G.same(v, a[k]), f"{tag}: {names[k]} is recovered ({how[k]})", inv, _show, sink=acc)
             if ctype == 3 and all(G.same(res[k], a[k]) for k in range(3)):
                 _divisor_guard(ctx, acc, r, tag, x1, x2, a, inv)
     acc.flush()
@@ -248,9 +260,8 @@ def _r1_lookup(ctx, acc, inv, loc, a, hook):
         if G.any_unknown(res) or res is None or _opaque_in(res):
             ctx.error("getcoordinates (grid id): result", inv, _show(res))
             continue
-        ok = G.same(res, a)
-        acc.check(ok, "getcoordinates: a grid id stands for the location stored for that grid (table row (id, 1), columns x, y, z)", inv,
-                  None if ok else _show(res))
+        _decide(ctx, [(res, r)], lambda v: G.same(v, a), "getcoordinates: a grid id stands for the location stored for that grid (table row (id, 1), "
+                "columns x, y, z)", inv, _show, sink=acc)
     try:
         runs = N.explore(ctx, N2P, inv, {"gid": N.as_arr((loc,)), "csys": F.const(0)}, hook=hook)
     except Unsupported as e:
@@ -261,8 +272,8 @@ def _r1_lookup(ctx, acc, inv, loc, a, hook):
         if G.any_unknown(res) or res is None or _opaque_in(res):
             ctx.error("getcoordinates (basic system): result", inv, _show(res))
             continue
-        ok = G.same(res, loc)
-        acc.check(ok, "getcoordinates: coordinate system 0 is the basic system (the location is returned as it is)", inv, None if ok else _show(res))
+        _decide(ctx, [(res, r)], lambda v: G.same(v, loc), "getcoordinates: coordinate system 0 is the basic system (the location is returned as it is)",
+                inv, _show, sink=acc)
 
 
 def _branch_tag(run, sx, cx):
@@ -408,20 +419,23 @@ def r3_rbgeom(ctx):
                 ctx.fail(f"rbgeom ({what}): the result has six rows per grid and six columns", fn, {"shape": list(run.ret.shape), "grids": ng})
                 dead.append(what)
                 return None
-            out.append(v)
+            out.append((v, run))
         return out or None
 
     # ---- scalar reference: the index of a grid (every index of the table, and one counted from the end)
-    bad, n_ok = [], 0
+    bad, n_ok, unsure = [], 0, True
     for k in (0, 1, -1):
         res = results({"grids": N.as_arr(g), "refpoint": F.const(k)}, f"scalar reference {k}")
         if res is None:
             continue
         n_ok += 1
         want = rbgeom_spec(g, g[k])
-        if not all(G.same(x, want) for x in res):
-            bad.append({"reference": k, "result": _show(res[0], 600)})
-    if n_ok:
+        if not all(G.same(x, want) for x, _ in res):
+            bad.append({"reference": k, "result": _show(res[0][0], 600)})
+            unsure = unsure and not any(run.sure for x, run in res if not G.same(x, want))
+    if n_ok and bad and unsure:
+        ctx.error("rbgeom: a scalar reference selects that grid's location", fn, {"not shown to be reachable": bad[:2]})
+    elif n_ok:
         ctx.check(not bad, "rbgeom: a scalar reference selects that grid's location: every grid gets [[I, -[(x - x_ref) x]], [0, I]] (unit translation / "
                   "rotation in its own component, rotational columns theta x r = (0,-z,y), (z,0,-x), (-y,x,0))", fn, bad or None)
     # ---- vector reference: a generic point, and the witness table for the short cut
@@ -429,21 +443,19 @@ def r3_rbgeom(ctx):
     res = results({"grids": N.as_arr(g), "refpoint": N.as_arr(r)}, "a generic reference point", truth=generic)
     if res is not None:
         want = rbgeom_spec(g, r)
-        ok = all(G.same(x, want) for x in res)
-        ctx.check(ok, "rbgeom: coordinates are taken relative to a vector reference point: every grid gets [[I, -[(x - ref) x]], [0, I]]", fn,
-                  None if ok else _show(res[0], 900))
+        _decide(ctx, res, lambda v: G.same(v, want), "rbgeom: coordinates are taken relative to a vector reference point: every grid gets "
+                "[[I, -[(x - ref) x]], [0, I]]", fn, lambda v: _show(v, 900))
     res = results({"grids": N.as_arr(g), "refpoint": N.as_arr((r,))}, "a (1, 3) reference point", truth=generic)
     if res is not None:
         want = rbgeom_spec(g, r)
-        ok = all(G.same(x, want) for x in res)
-        ctx.check(ok, "rbgeom: a reference point given as a (1, 3) array (the shape of the default) is used like the vector", fn,
-                  None if ok else _show(res[0], 900))
+        _decide(ctx, res, lambda v: G.same(v, want), "rbgeom: a reference point given as a (1, 3) array (the shape of the default) is used like the vector",
+                fn, lambda v: _show(v, 900))
     table = [(Fraction(7), Fraction(-2), Fraction(3)), (Fraction(0), Fraction(7, 2), Fraction(-5, 4)), (Fraction(-2), Fraction(0), Fraction(3))]
     for x in (0, 1, -1):
         for y in (0, 1, -1):
             for z in (0, 1, -1):
                 table.append((Fraction(x), Fraction(y), Fraction(z)))
-    bad, n_ok = [], 0
+    bad, n_ok, unsure = [], 0, True
     for w in table:
         ref = tuple(F.const(c) for c in w)
         res = results({"grids": N.as_arr(g), "refpoint": N.as_arr(ref)}, f"reference {[str(c) for c in w]}")
@@ -451,23 +463,24 @@ def r3_rbgeom(ctx):
             continue
         n_ok += 1
         want = rbgeom_spec(g, ref)
-        if not all(G.same(x, want) for x in res):
-            bad.append({"reference": [str(c) for c in w], "rows of grid 0": _show(res[0][:3], 400)})
-    if n_ok:
+        if not all(G.same(x, want) for x, _ in res):
+            bad.append({"reference": [str(c) for c in w], "rows of grid 0": _show(res[0][0][:3], 400)})
+            unsure = unsure and not any(run.sure for x, run in res if not G.same(x, want))
+    if n_ok and bad and unsure:
+        ctx.error("rbgeom: the shift is skipped only when every coordinate of the reference point is zero", fn, {"not shown to be reachable": bad[:2]})
+    elif n_ok:
         ctx.check(not bad, "rbgeom: the shift is skipped only when every coordinate of the reference point is zero", fn,
                   None if not bad else {"counterexamples": bad[:4], "consequence": "a reference point with one zero coordinate would be ignored"})
     one = tuple(F.sym(f"q{k}") for k in "xyz")
     res = results({"grids": N.as_arr(one), "refpoint": N.as_arr(r)}, "one location given as a 3-vector", truth=generic, ng=1)
     if res is not None:
         want = rbgeom_spec((one,), r)
-        ok = all(G.same(x, want) for x in res)
-        ctx.check(ok, "rbgeom: one location given as a plain 3-vector (the way rbmove passes the old reference) is one grid", fn,
-                  None if ok else _show(res[0], 600))
+        _decide(ctx, res, lambda v: G.same(v, want), "rbgeom: one location given as a plain 3-vector (the way rbmove passes the old reference) is one grid",
+                fn, lambda v: _show(v, 600))
     res = results({"grids": N.as_arr(g)}, "default reference")
     if res is not None:
         want = rbgeom_spec(g, (O_, O_, O_))
-        ok = all(G.same(x, want) for x in res)
-        ctx.check(ok, "rbgeom: the default reference point is the origin of the basic system", fn, None if ok else _show(res[0], 900))
+        _decide(ctx, res, lambda v: G.same(v, want), "rbgeom: the default reference point is the origin of the basic system", fn, lambda v: _show(v, 900))
     # ---- rbmove
     mv = ctx.src.func(N2P, "rbmove")
     rb = tuple(tuple(F.sym(f"m{i}{j}") for j in range(6)) for i in range(2))
@@ -480,17 +493,13 @@ def r3_rbgeom(ctx):
         runs = []
     if runs:
         want = G.matmul(rb, rbgeom_spec((old,), r))
-        ok, detail = True, None
-        for run in runs:
-            v = N.to_nested(run.ret)
-            if G.any_unknown(v) or v is None or _opaque_in(v):
-                ctx.error("rbmove: result", mv, _show(v, 300))
-                ok = None
-                break
-            if not G.same(v, want):
-                ok, detail = False, _show(v, 600)
-        if ok is not None:
-            ctx.check(ok, "rbmove: modes about a new reference = modes @ rbgeom(old reference about new reference)", mv, detail)
+        pairs = [(N.to_nested(run.ret), run) for run in runs]
+        junk = [v for v, _ in pairs if G.any_unknown(v) or v is None or _opaque_in(v)]
+        if junk:
+            ctx.error("rbmove: result", mv, _show(junk[0], 300))
+        else:
+            _decide(ctx, pairs, lambda v: G.same(v, want), "rbmove: modes about a new reference = modes @ rbgeom(old reference about new reference)", mv,
+                    lambda v: _show(v, 600))
 
 
 # ------------------------------------------------------------------------------------------------ R2: rbgeom_uset local frames
@@ -709,65 +718,65 @@ def r2_local_frames(ctx):
     # ---- the mixed table: scalar points, a q-set grid, one grid of every type, a general reference point
     scene, results = evaluate(_MIXED, "table with scalar points, a q-set grid and one grid of every type", N.as_arr(ref))
     if results is not None:
-        ok = all(all(x.is_zero() for x in res[r]) for res, _ in results for r in scene.other_rows if not G.any_unknown(res[r])) \
-            and not any(G.any_unknown(res[r]) for res, _ in results for r in scene.other_rows)
-        ctx.check(ok, "rbgeom_uset: the local-frame rows are written to the rows of the grids (scalar points and q-set grids keep zeros) of the returned "
-                  "array, one row per table row", fn, None if ok else {"rows": [_show(results[0][0][r], 120) for r in scene.other_rows[:3]]})
+        _decide(ctx, results, lambda res: all(all(x.is_zero() for x in res[r]) for r in scene.other_rows),
+                "rbgeom_uset: the local-frame rows are written to the rows of the grids (scalar points and q-set grids keep zeros) of the returned "
+                "array, one row per table row", fn, lambda res: {"rows": [_show(res[r], 120) for r in scene.other_rows[:3]]})
         for info in scene.grids:
             want = scene.expected_block(info, ref)
-            got = [block(res, info) for res, _ in results]
             if info["type"] == 1:
-                ok = all(G.same(b, want) for b in got)
-                ctx.check(ok, "rbgeom_uset: the basic rigid-body rows of a grid are taken to its output system with the transpose of that grid's own 3x3 "
-                              "(table rows 3..5, columns x, y, z), translations and rotations alike", fn, None if ok else _show(got[0], 900))
+                _decide(ctx, results, lambda res: G.same(block(res, info), want),
+                        "rbgeom_uset: the basic rigid-body rows of a grid are taken to its output system with the transpose of that grid's own 3x3 "
+                        "(table rows 3..5, columns x, y, z), translations and rotations alike", fn, lambda res: _show(block(res, info), 900))
                 continue
             label, fname = ("cylindrical", "[e_r, e_theta, e_z]") if info["type"] == 2 else ("spherical", "[e_R, e_theta, e_phi]")
             tag = info["tag"]
-            private = ["al" + tag, "be" + tag, "ga" + tag] + [f"O{tag}{k}" for k in "xyz"]
-            # the frame that was applied: (translational 3x3) @ T, because the leading 3x3 of the basic block is the identity
-            frames = [G.matmul(tuple(r[:3] for r in b[:3]), info["T"]) for b in got]
-            ok = all(not G.any_unknown(f_) and _free_of(f_, private) and not any(G.mentions_sym(f_, f"X{tag}{k}") for k in "xyz") for f_ in frames)
-            ctx.check(ok, f"rbgeom_uset ({label}): the frame of a grid depends on the table only through the grid's local position "
-                          "(its own 3x3).T @ (grid location - origin of its output system), rows 0 and 2 of the grid's table block", fn,
-                      None if ok else _show(frames[0], 600))
-            ok = all(G.same(tuple(b[:3]), tuple(want[:3])) for b in got)
-            ctx.check(ok, f"rbgeom_uset ({label}): the translational rows of a grid off the polar axis are rotated into the local frame {fname} at the "
-                          "grid's position (rows = unit vectors; azimuth = atan2(local y, local x)"
-                          + (", polar angle = atan2(in-plane radius, local z))" if info["type"] == 3 else ")"), fn,
-                      None if ok else {"frame applied": _show(frames[0], 700)})
-            ok = all(G.same(tuple(b[3:]), tuple(want[3:])) for b in got)
-            ctx.check(ok, f"rbgeom_uset ({label}): the rotational rows are rotated by the same frame as the translational rows", fn,
-                      None if ok else _show(got[0][3:], 700))
+            private = ["al" + tag, "be" + tag, "ga" + tag] + [f"O{tag}{k}" for k in "xyz"] + [f"X{tag}{k}" for k in "xyz"]
+
+            def frame_of(res):
+                # the frame that was applied: (translational 3x3) @ T, because the leading 3x3 of the basic block is the identity
+                return G.matmul(tuple(r[:3] for r in block(res, info)[:3]), info["T"])
+            _decide(ctx, results, lambda res: _free_of(frame_of(res), private),
+                    f"rbgeom_uset ({label}): the frame of a grid depends on the table only through the grid's local position "
+                    "(its own 3x3).T @ (grid location - origin of its output system), rows 0 and 2 of the grid's table block", fn,
+                    lambda res: _show(frame_of(res), 600))
+            _decide(ctx, results, lambda res: G.same(tuple(block(res, info)[:3]), tuple(want[:3])),
+                    f"rbgeom_uset ({label}): the translational rows of a grid off the polar axis are rotated into the local frame {fname} at the "
+                    "grid's position (rows = unit vectors; azimuth = atan2(local y, local x)"
+                    + (", polar angle = atan2(in-plane radius, local z))" if info["type"] == 3 else ")"), fn,
+                    lambda res: {"frame applied": _show(frame_of(res), 700)})
+            _decide(ctx, results, lambda res: G.same(tuple(block(res, info)[3:]), tuple(want[3:])),
+                    f"rbgeom_uset ({label}): the rotational rows are rotated by the same frame as the translational rows", fn,
+                    lambda res: _show(block(res, info)[3:], 700))
+
+    def wrong_blocks(scene, refv):
+        return lambda res: {str(info["id"]): info["type"] for info in scene.grids if not G.same(block(res, info), scene.expected_block(info, refv))}
     # ---- every grid is visited, whatever its place in the table
     scene, results = evaluate(_ALL_RECT, "table of rectangular grids", N.as_arr(ref))
     if results is not None:
-        bad = [info["id"] for info in scene.grids if not all(G.same(block(res, info), scene.expected_block(info, ref)) for res, _ in results)]
-        ctx.check(not bad, "rbgeom_uset: the rectangular step visits every grid: blocks of six rows starting at 0, 6, 12, ... of the selected table",
-                  fn, None if not bad else {"grids with a wrong block": bad})
+        w = wrong_blocks(scene, ref)
+        _decide(ctx, results, lambda res: not w(res), "rbgeom_uset: the rectangular step visits every grid: blocks of six rows starting at 0, 6, 12, ... "
+                "of the selected table", fn, lambda res: {"grids (id: type) with a wrong block": w(res)})
     # ---- the default reference point
     if results is not None:
         scene, results = evaluate(_ALL_RECT, "default reference point", None)
         if results is not None:
-            zero = (O_, O_, O_)
-            bad = [info["id"] for info in scene.grids if not all(G.same(block(res, info), scene.expected_block(info, zero)) for res, _ in results)]
-            ctx.check(not bad, "rbgeom_uset: the default reference point is the origin of the basic system", fn,
-                      None if not bad else {"grids with a wrong block": bad})
+            w0 = wrong_blocks(scene, (O_, O_, O_))
+            _decide(ctx, results, lambda res: not w0(res), "rbgeom_uset: the default reference point is the origin of the basic system", fn,
+                    lambda res: {"grids (id: type) with a wrong block": w0(res)})
     # ---- a grid id as reference point
     if results is not None:
         scene, results = evaluate(_ALL_RECT, "grid id as reference point", F.const(6))
         if results is not None:
-            refx = next(i for i in scene.grids if i["id"] == 6)["X"]
-            bad = [info["id"] for info in scene.grids if not all(G.same(block(res, info), scene.expected_block(info, refx)) for res, _ in results)]
-            ctx.check(not bad, "rbgeom_uset: a grid id given as reference point stands for the location of that grid (looked up among the grids that were "
-                      "selected)", fn, None if not bad else {"grids with a wrong block": bad})
+            w6 = wrong_blocks(scene, next(i for i in scene.grids if i["id"] == 6)["X"])
+            _decide(ctx, results, lambda res: not w6(res), "rbgeom_uset: a grid id given as reference point stands for the location of that grid (looked up "
+                    "among the grids that were selected)", fn, lambda res: {"grids (id: type) with a wrong block": w6(res)})
     # ---- type codes
     scene, results = evaluate(_PERMUTED, "table with the types in another order", N.as_arr(ref))
     if results is not None:
-        bad = {str(info["id"]): info["type"] for info in scene.grids
-               if not all(G.same(block(res, info), scene.expected_block(info, ref)) for res, _ in results)}
-        ctx.check(not bad, "rbgeom_uset: cylindrical grids are those whose output-system type (table row 2, column y) is 2, spherical 3 - the same codes that "
-                           "_get_loc_a_basic and getcoordinates dispatch on; every other grid stays in its rectangular frame", fn,
-                  None if not bad else {"grids (id: type) with a wrong block": bad})
+        wp = wrong_blocks(scene, ref)
+        _decide(ctx, results, lambda res: not wp(res), "rbgeom_uset: cylindrical grids are those whose output-system type (table row 2, column y) is 2, "
+                "spherical 3 - the same codes that _get_loc_a_basic and getcoordinates dispatch on; every other grid stays in its rectangular frame", fn,
+                lambda res: {"grids (id: type) with a wrong block": wp(res)})
     # ---- the polar-axis short cuts, decided at the points of a witness table (exact numbers everywhere)
     verdict = {"cylindrical azimuth": [], "spherical azimuth": [], "spherical polar angle": []}
     und, crashes = [], []
